@@ -92,7 +92,7 @@ func c12Behaviour(lib *ast.KnowledgeLibrary, prog *hx.Program, name, ver string,
 		if tr.Err != nil {
 			errs = firstLineOf(tr.Err.Error())
 		}
-		fmt.Fprintf(&b, "o%d: %s | err=%s | panic=%v | %s\n", o, strings.Join(tr.Events, " "), errs, tr.Panic, tr.FinalDump)
+		fmt.Fprintf(&b, "o%d: %s | err=%s | panic=%v | %s\n", o, hx.Evs(tr.Events), errs, tr.Panic, tr.FinalDump)
 		kb2, _ := lib.NewKnowledgeBaseInstance(name, ver)
 		res := hx.Fetch(kb2, c12World(), false, 0)
 		fmt.Fprintf(&b, "fetch: %v %v\n", res.Names, res.Err)
